@@ -32,6 +32,8 @@ type R<T> = Result<T, String>;
 struct Event {
     args: Vec<usize>,
     free: bool,
+    /// `errflag=<flag>`: the named flag records that this event returned Err (error-propagation contracts)
+    errflag: Option<String>,
 }
 
 struct LoopCtx {
@@ -232,10 +234,15 @@ impl<'a> Sk<'a> {
                 self.effects(a, out)?;
             }
         }
-        Ok(match recv {
+        let call = match recv {
             Some(r) => format!("{r}.{name}({})", kept_args.join(", ")),
             // `Self(..)` (tuple-struct constructor as an event) is emitted as `Self_(..)`
             None => format!("{}({})", if name == "Self" { "Self_" } else { name }, kept_args.join(", ")),
+        };
+        Ok(match self.events[name].errflag.clone() {
+            // the result passes through `note_err`, which sets the flag when it is an Err (prelude)
+            Some(f) => format!("note_err({call}, &mut {f})"),
+            None => call,
         })
     }
 
@@ -1128,8 +1135,22 @@ impl<'a> Sk<'a> {
                         collect_pat_idents(p, &mut names);
                         let mut any_kept = names.iter().any(|n| self.kept.contains_key(n) || self.tracked.contains_key(n));
                         // S11 for tuple patterns: the components of an event result are kept under whatever names
+                        // let-else: the else block diverges (continue / break / return); its skeleton is kept
+                        let mut else_lines: Option<Vec<String>> = None;
+                        if let Some((_, eb)) = &init.diverge {
+                            let mut lines = Vec::new();
+                            match &**eb {
+                                syn::Expr::Block(b) => {
+                                    for st in &b.block.stmts {
+                                        self.stmt(st, &mut lines)?;
+                                    }
+                                }
+                                other => self.stmt_expr(other, &mut lines)?,
+                            }
+                            else_lines = Some(lines);
+                        }
                         if let Some(vt) = &v {
-                            if !any_kept && vt.contains('(') && !vt.starts_with('(') && matches!(p, syn::Pat::Tuple(_)) {
+                            if !any_kept && vt.contains('(') && !vt.starts_with('(') && (matches!(p, syn::Pat::Tuple(_)) || else_lines.is_some()) {
                                 for n in &names {
                                     self.kept.insert(n.clone(), "_".into());
                                 }
@@ -1138,8 +1159,21 @@ impl<'a> Sk<'a> {
                             }
                         }
                         if let (Some(v), true) = (&v, any_kept) {
-                            out.push(format!("let {} = {v}; {}", self.pat_text(p), self.srcnote(l.span())));
+                            match &else_lines {
+                                Some(lines) => {
+                                    out.push(format!("let {} = {v} else {{ {}", self.pat_text(p), self.srcnote(l.span())));
+                                    out.extend(ind(lines.clone()));
+                                    out.push("};".into());
+                                }
+                                None => out.push(format!("let {} = {v}; {}", self.pat_text(p), self.srcnote(l.span()))),
+                            }
                         } else {
+                            if let Some(lines) = &else_lines {
+                                // the pattern may fail to match: the else block runs nondeterministically
+                                out.push(format!("if nd() {{ {}", self.srcnote(l.span())));
+                                out.extend(ind(lines.clone()));
+                                out.push("}".into());
+                            }
                             if let Some(v) = &v {
                                 if v.contains('(') && !v.starts_with('(') {
                                     out.push(format!("let _ = {v}; {}", self.srcnote(l.span())));
@@ -1757,12 +1791,14 @@ pub fn skeleton_fn(ctx: &mut Ctx, blk: &Block) -> Result<(String, Value), String
             "event" => {
                 let mut it = s.arg.split_whitespace();
                 let n = it.next().ok_or("event: <name>")?.to_string();
-                let mut ev = Event { args: vec![], free: false };
+                let mut ev = Event { args: vec![], free: false, errflag: None };
                 for w in it {
                     if let Some(a) = w.strip_prefix("args=") {
                         ev.args = a.split(',').filter(|x| !x.is_empty()).map(|x| x.parse().unwrap_or(999)).collect();
                     } else if w == "free" {
                         ev.free = true;
+                    } else if let Some(f) = w.strip_prefix("errflag=") {
+                        ev.errflag = Some(f.to_string());
                     }
                 }
                 sk.events.insert(n, ev);
